@@ -278,7 +278,7 @@ def split_op(op):
         else:
             cur.append(x)
     groups.append(cur)
-    return w[0], int(w[1]), groups[0], groups[1:]
+    return w[0], int(w[1]), groups[1], groups[2:]
 
 
 def strict_sol(toks, want_n):
